@@ -109,7 +109,34 @@ _ZOO = {
     "type_int": (lambda: int, []),
     "lambda": (lambda: _LAMBDA, []),
     "notimplemented": (lambda: NotImplemented, []),
+    # members that cannot be ordered among themselves
+    "set_mixed": (lambda: {1, "a"}, []),
+    "frozenset_mixed": (lambda: frozenset({b"a", "a", None}), []),
+    # objects that can be neither copied nor pickled
+    "generator": (lambda: _GENERATOR, []),
+    "lock": (lambda: _LOCK, []),
+    "uncopyable": (lambda: _UNCOPYABLE, []),
 }
+
+
+class Uncopyable:
+    def __copy__(self):
+        raise TypeError("cannot be copied")
+
+    def __deepcopy__(self, memo):
+        raise TypeError("cannot be copied")
+
+    def __reduce_ex__(self, protocol):
+        raise TypeError("cannot be pickled")
+
+
+def _gen():
+    yield 1
+
+
+_GENERATOR = _gen()
+_LOCK = __import__("threading").Lock()
+_UNCOPYABLE = Uncopyable()
 _LAMBDA = (lambda: None)
 
 
@@ -287,7 +314,7 @@ def a_value(x):
             return VObj(cls, [basekind], [a_value(plain)])
     for cls, (factory, isa) in _ZOO.items():
         y = factory()
-        if type(y) is t and (y is x or (not isinstance(y, (Opaque, UuidLike)) and _safe_eq(y, x))):
+        if type(y) is t and (y is x or (not isinstance(y, (Opaque, UuidLike, Uncopyable)) and _safe_eq(y, x))):
             return VObj(cls, isa, [])
     raise Unrepresentable("python value %r of %r" % (x, t))
 
